@@ -2,6 +2,7 @@ import Physt.Driver
 import Physt.Model.HistND
 import Physt.Model.Config
 import Physt.Model.Special
+import Physt.Model.Factories
 /-! ND part of the line-protocol driver. -/
 open Lean (Json)
 namespace Physt.Driver
@@ -326,6 +327,37 @@ def runVersion (case : Json) : E Json := do
   let docs ← getList getVersion (← field case "required")
   pure (Json.arr (docs.map fun d => Json.bool (versionRefused cur d)).toArray)
 
+/-- representations of a binning given as pairs, and the exact-arithmetic factories -/
+def runBinning (case : Json) : E Json := do
+  let what ← (← field case "what").getStr?
+  match what with
+  | "repr" =>
+    let bins ← getList getBin (← field case "bins")
+    let (es, mask) := maskedEdges bins
+    pure (Json.mkObj [("rising", risingB bins), ("consecutive", consecutiveB bins), ("count", Json.num bins.length),
+      ("first", jNRat (firstEdge? bins)), ("last", jNRat (lastEdge? bins)),
+      ("edges", if consecutiveB bins then jRats (binsToEdges bins) else Json.null),
+      ("masked_edges", jRats es), ("mask", jNats mask),
+      ("pairs_of_edges", if consecutiveB bins then jBins (edgesToBins (binsToEdges bins)) else Json.null)])
+  | "linspace" =>
+    let a ← getRat (← field case "start")
+    let b ← getRat (← field case "stop")
+    let n ← (← field case "n").getNat?
+    pure (jRats (linspace a b n))
+  | "pretty" =>
+    let raw ← getRat (← field case "raw")
+    let cands ← getList getRat (← field case "candidates")
+    pure (jNRat (prettyChoice raw cands))
+  | "count" =>
+    let m ← (← field case "method").getStr?
+    let n ← (← field case "n").getNat?
+    pure (match idealBinCount m n with | some k => Json.num k | none => Json.null)
+  | "quantile" =>
+    let sorted ← getList getRat (← field case "sorted")
+    let qs ← getList getRat (← field case "q")
+    pure (Json.arr (qs.map fun q => jNRat (quantile sorted q)).toArray)
+  | _ => throw s!"unknown binning query {what}"
+
 def runCaseAll (case : Json) : E Json := do
   let kind ← (← field case "kind").getStr?
   let fo := if getBoolD case "exact" false then FloatOps.exact else FloatOps.ieee
@@ -334,6 +366,7 @@ def runCaseAll (case : Json) : E Json := do
   | "config" => runConfig case
   | "measure" => runMeasure case
   | "version" => runVersion case
+  | "binning" => runBinning case
   | _ => runCase case
 
 def handleLineAll (line : String) : String :=
